@@ -725,6 +725,99 @@ def two_vector_cases(T, lay, cfg, qt, v3, kt, tg, sc):
             res.append(R.ob('%s.same_direction_arm' % nm2, 'two_vectors', R.PROVED, 'u.v >= 1 - epsilon returns the identity quaternion', kernel=k2.source()))
         return res
     cs.append(R.Case(nm2, [k2], guard(nm2, [k2], body2)))
+    # gtx rotation(u, -u): the opposite-directions arm.  The returned vector part is a normalised guess axis: it must be perpendicular to u and unit,
+    # and the vector handed to normalize() may not vanish for any unit u that takes the path (the second guess exists for exactly that case)
+    k3 = K('rotation_opp_' + kt, [Par('o', qt, False), pU], '*o = rotation(*u, -*u);', cfg)
+    nm3 = 'rotation(u,-u)<%s>' % tg
+
+    def body3(ctx):
+        lanes = L.out_lanes(ctx, k3, qt)
+        up = vin('u', v3)
+        uat = [m[0] for x in up for m in x.t]
+        units = lambda x: P.reduce_ideal(x, uat[2], ONE - up[0] * up[0] - up[1] * up[1], deg=2)
+        try:
+            leaves = P.decision_paths(lambda a_: P.NormCtx(a_, units), lambda cx: tuple(cx.fpoly(lanes[c]) for c in 'xyz'))
+        except P.TooManyPaths:
+            return [R.ob(nm3, 'two_vectors', R.UNDECIDED, 'too many decision paths')]
+        res = []
+        seen = set()
+        cands = []
+        for i in range(3):
+            for sg in (1, -1):
+                cands.append({uat[j]: Fraction(sg if j == i else 0) for j in range(3)})
+        cands += [{uat[0]: Fraction(3, 7), uat[1]: Fraction(6, 7), uat[2]: Fraction(2, 7)}, {uat[0]: Fraction(-2, 3), uat[1]: Fraction(1, 3), uat[2]: Fraction(2, 3)},
+                  {uat[0]: Fraction(3, 5), uat[1]: Fraction(0), uat[2]: Fraction(4, 5)}, {uat[0]: Fraction(0), uat[1]: Fraction(3, 5), uat[2]: Fraction(-4, 5)}]
+        n = 0
+        for asg, infos, got, cx in leaves:
+            key = tuple(g.key() for g in got)
+            if key in seen:
+                continue
+            seen.add(key)
+            if all(g.is_const() for g in got):
+                continue          # same-direction arm (identity): not reachable for (u, -u)
+            n += 1
+            regime = ', '.join('%s %s %s' % (P.show_poly(infos[at][0], limit=2), '<' if v == 'lt' else '>', P.show_poly(infos[at][1], limit=2)) for at, v in asg.items() if at[0] == 'pair')[:300]
+            post = lambda x: units(P.reduce_sqrt(clear_invsqrt(P.reduce_inv(x), cx) if clear_invsqrt(P.reduce_inv(x), cx) is not None else P.reduce_inv(x)))
+            perp = post(sum((a_ * b_ for a_, b_ in zip(got, up)), Poly()))
+            n2 = post(sum((a_ * a_ for a_ in got), Poly()) - ONE)
+            ok = perp.is_zero() and n2.is_zero()
+            res.append(R.ob('%s.arm%d.axis' % (nm3, n), 'two_vectors', R.PROVED if ok else R.UNDECIDED,
+                            'vector part is unit and perpendicular to u: a half turn taking u to -u  [%s]' % regime if ok else 'axis.u = %s ; |axis|^2 - 1 = %s  [%s]' % (P.show_poly(perp, limit=3), P.show_poly(n2, limit=3), regime), kernel=k3.source()))
+            # non-degeneracy of the normalised guess
+            qs = set()
+            for g in got:
+                for a_ in g.atoms():
+                    ka = P.atom_key(a_)
+                    if ka[0] == 'inv':
+                        for b_ in ka[1][1].atoms():
+                            kb = P.atom_key(b_)
+                            if kb[0] == 'sqrt':
+                                qs.add(kb[1][1].key())
+                                qpoly = kb[1][1]
+            if len(qs) != 1:
+                res.append(R.ob('%s.arm%d.nondegenerate' % (nm3, n), 'two_vectors', R.UNDECIDED, 'normalised quantity not identified', kernel=k3.source()))
+                continue
+            Qp = units(qpoly)
+            cons = [(v, infos[at][0] - infos[at][1]) for at, v in asg.items() if at[0] == 'pair']
+            wit = None
+            for env in cands:
+                try:
+                    if P.eval_poly(Qp, env) != 0:
+                        continue
+                    if all(((P.eval_poly(e_, env) < 0) if r_ == 'lt' else (P.eval_poly(e_, env) > 0)) for r_, e_ in cons):
+                        wit = env
+                        break
+                except P.CantEval:
+                    continue
+            if wit is not None:
+                res.append(R.ob('%s.arm%d.nondegenerate' % (nm3, n), 'two_vectors', R.REFUTED,
+                                'for the unit vector u = (%s) this arm is taken [%s] and normalises a zero vector (|guess axis|^2 = %s): rotation(u, -u) is NaN instead of a half turn' % (', '.join(str(wit[a_]) for a_ in uat), regime, P.show_poly(Qp, limit=4)),
+                                kernel=k3.source()))
+                continue
+            # sufficient condition: a path condition bounds Q from below directly, or bounds P < small with Q + P - 1 a sum of squares (Q >= 1 - P)
+            proved = False
+            for r_, e_ in cons:
+                # e_ = lhs - rhs ; 'gt': lhs > rhs
+                for sgn_ in (1, -1):
+                    d = units(e_.scale(sgn_))
+                    c0 = d.t.get((), 0)
+                    body = d - Poly.const(c0)
+                    holds_gt = (r_ == 'gt' and sgn_ == 1) or (r_ == 'lt' and sgn_ == -1)          # body + c0 > 0
+                    if holds_gt and (body - Qp).is_zero() and c0 <= 0:
+                        proved = True                       # Q > -c0 >= 0
+                    if holds_gt and c0 > 0 and c0 < Fraction(1, 1000):
+                        # -P + c0 > 0, i.e. P < c0 (tiny): Q >= 1 - P if Q + P - 1 is a sum of squares
+                        Pp = -body
+                        rest = units(Qp + Pp - ONE)
+                        if all(cf > 0 and all(m.count(x_) % 2 == 0 for x_ in set(m)) for m, cf in rest.t.items()):
+                            proved = True
+            res.append(R.ob('%s.arm%d.nondegenerate' % (nm3, n), 'two_vectors', R.PROVED if proved else R.UNDECIDED,
+                            'the vector handed to normalize() cannot vanish on this arm (|guess|^2 = %s)  [%s]' % (P.show_poly(Qp, limit=4), regime) if proved else 'could not bound |guess|^2 = %s away from zero  [%s]' % (P.show_poly(Qp, limit=4), regime),
+                            kernel=k3.source()))
+        if not n:
+            res.append(R.ob(nm3, 'two_vectors', R.UNDECIDED, 'no opposite-direction arm found'))
+        return res
+    cs.append(R.Case(nm3, [k3], guard(nm3, [k3], body3)))
     return cs
 
 
